@@ -75,7 +75,7 @@ def lie_files():
 
     files = {}
     files["SO2"] = group_units("SO2", SO2) + algebra_units("so2", so2)
-    files["SE2"] = group_units("SE2", SE2, with_from_matrix=False) + algebra_units("se2", se2)
+    files["SE2"] = group_units("SE2", SE2) + algebra_units("se2", se2)
     files["Rn"] = (group_units("R2", R2, with_from_matrix=False) + algebra_units("r2", r2)
                    + group_units("R3", R3, with_from_matrix=False) + algebra_units("r3", r3))
     files["so3"] = algebra_units("so3", so3, jac=True)
@@ -115,6 +115,26 @@ def lie_files():
     files["se23"] = algebra_units("se23", se23, jac=True)
     files["SE23Quat"] = group_units("SE23Quat", SE23Quat)
     files["SE23Mrp"] = group_units("SE23Mrp", SE23Mrp)
+    # direct products built with `*` (flattening and nested)
+    dps = {
+        "DPa": lambda: SO3Mrp * R3,                 # the estimator's state group
+        "DPb": lambda: (SO3Quat * R3) * SO2,        # left-nested: __mul__ flattens
+        "DPc": lambda: SE2 * (SO2 * R2),            # right-nested
+        "DPd": lambda: SO3Dcm * R2,                 # with a DCM factor
+    }
+    U = []
+    for nm, mk in dps.items():
+        def units_for(nm=nm, mk=mk):
+            G = mk()
+            return group_units(nm, G, with_from_matrix=False, with_Ad=False) + [
+                (nm + "_alg.hat", lambda: F("hat", [("x", G.algebra.n_param)], lambda x: dense(G.algebra.elem(x).to_Matrix()))),
+                (nm + "_alg.ad", lambda: F("ad", [("x", G.algebra.n_param)], lambda x: dense(G.algebra.elem(x).ad()))),
+            ]
+        try:
+            U += units_for()
+        except Exception as e:  # the construction itself failed: record as a unit error
+            U.append((nm + ".construct", (lambda e=e: (_ for _ in ()).throw(e))))
+    files["DP"] = U
     return files
 
 
